@@ -345,6 +345,9 @@ func c09Collect(c *core.Ctx, pkg *packages.Package) {
 		}})
 }
 
+// rules whose loops may be left by returning an error
+var errReturnOK = map[string]bool{"C12.joinfinish": true}
+
 // loopShape: in fn, the range loop over x… contains call `must` and no early exit.
 func c09LoopNoExit(c *core.Ctx, rule, cons string, fn *core.Func, info *types.Info, overSuffix, must string, extra func(rs *ast.RangeStmt, call *ast.CallExpr) string) {
 	found := false
@@ -362,7 +365,14 @@ func c09LoopNoExit(c *core.Ctx, rule, cons string, fn *core.Func, info *types.In
 			case *ast.FuncLit:
 				return false
 			case *ast.ReturnStmt:
-				early = "return"
+				// returning an error (a non-nil last result) ends the fan-out legitimately when the rule allows it
+				last := ""
+				if len(x.Results) > 0 {
+					last = types.ExprString(x.Results[len(x.Results)-1])
+				}
+				if !(errReturnOK[rule] && last != "nil" && last != "") {
+					early = "return"
+				}
 			case *ast.BranchStmt:
 				if x.Tok == token.BREAK || x.Tok == token.GOTO || x.Tok == token.CONTINUE {
 					early = x.Tok.String()
@@ -379,9 +389,14 @@ func c09LoopNoExit(c *core.Ctx, rule, cons string, fn *core.Func, info *types.In
 			top := false
 			for _, st := range rs.Body.List {
 				if st.Pos() <= call.Pos() && call.End() <= st.End() {
-					switch st.(type) {
+					switch y := st.(type) {
 					case *ast.ExprStmt, *ast.AssignStmt:
 						top = true
+					case *ast.IfStmt:
+						// `if err := x.M(); err != nil { return err }`: the call is the if's init, executed unconditionally
+						if y.Init != nil && y.Init.Pos() <= call.Pos() && call.End() <= y.Init.End() {
+							top = true
+						}
 					}
 				}
 			}
